@@ -443,11 +443,15 @@ theorem lexDocument_render (ts : List Token) (h : LexOK false ts = true) :
 
 /-- The tokens read back are the given ones up to byte positions. -/
 theorem lexFragment_render_erase (ts : List Token) (h : LexOK true ts = true) :
-    ∃ ts', lexFragment (renderTokens ts) = (ts', none) ∧ ts'.map Token.erase = ts.map Token.erase :=
-  ⟨placeTokens 0 ts, lexFragment_render ts h, placeTokens_erase 0 ts⟩
+    ∃ ts', lexFragment (renderTokens ts) = (ts', none) ∧ ts'.map Token.erase = ts.map Token.erase ∧
+      tokensPrefixOk ts' = true :=
+  ⟨placeTokens 0 ts, lexFragment_render ts h, placeTokens_erase 0 ts,
+    placeTokens_prefixOk ts 0⟩
 
 theorem lexDocument_render_erase (ts : List Token) (h : LexOK false ts = true) :
-    ∃ ts', lexDocument (renderTokens ts) = (ts', none) ∧ ts'.map Token.erase = ts.map Token.erase :=
-  ⟨placeTokens 0 ts, lexDocument_render ts h, placeTokens_erase 0 ts⟩
+    ∃ ts', lexDocument (renderTokens ts) = (ts', none) ∧ ts'.map Token.erase = ts.map Token.erase ∧
+      tokensPrefixOk ts' = true :=
+  ⟨placeTokens 0 ts, lexDocument_render ts h, placeTokens_erase 0 ts,
+    placeTokens_prefixOk ts 0⟩
 
 end XotModel
